@@ -527,10 +527,14 @@ func TestC14Forms(t *testing.T) {
 		default:
 			fault = "untyped-field-beside-aggregate"
 			v := pick("value", "split(value, ',')", "json(value)", "list(1, 2)", "int_list(strlen(key))", "json('{}')")
+			plain := pick("plainField", "upper(value)", "nobody", "`no body`", "strlen(key) > 1", "1.5")
 			build = func(faulty bool) string {
 				x := v
 				if !faulty {
-					x = "upper(value)"
+					// what may stand beside an aggregate: a text, a number, a
+					// Boolean - and a name nobody defines, which stands for its
+					// own text
+					x = plain
 				}
 				if flag {
 					return "select " + x + " as l0, l0 as l, key, " + aggr + " where key ^= 'a' group by key, key, key"
